@@ -456,6 +456,36 @@ fn pending_status_scenario() -> BoxedStrategy<Vec<Op>> {
         .boxed()
 }
 
+/// The hot subnet is at the table limit and one of its nodes is the disconnected FRONT node of a full
+/// bucket; a connected newcomer of that subnet is offered to the bucket (it could only get in by
+/// replacing the front node, but for the table-wide count it is an eleventh node until then); then
+/// another node leaves the bucket, the time-out elapses and the table is touched.
+fn front_in_hot_subnet_scenario() -> BoxedStrategy<Vec<Op>> {
+    (0u8..NBOFF, 0u8..3, 0u8..8, 1u8..16, any::<bool>()).prop_map(|(b, hot, first_filler, leaver, nine)| {
+        let small = |i: u16| i.wrapping_mul(4099).wrapping_add(17);
+        let mut v = Vec::new();
+        let mut placed = 0u8;
+        let others = if nine { 9 } else { 8 };
+        for boff in (0..NBOFF).filter(|x| *x != b) {
+            for i in 0..2u16 {
+                if placed < others {
+                    v.push(Op::Insert { k: KSel { boff, idx: small(i) }, net: Net::Hot(hot), seq: 1, connected: true, incoming: false });
+                    placed += 1;
+                }
+            }
+        }
+        v.push(Op::BulkFill { boff: b, n: 16, conn: 0xFFFE, first_filler });
+        // the front node's record moves into the hot subnet
+        v.push(Op::UpdateNode { k: KSel { boff: b, idx: small(0) }, net: Net::Hot(hot), seq: 2, state: None });
+        v.push(Op::Insert { k: KSel { boff: b, idx: small(20) }, net: Net::Hot(hot), seq: 1, connected: true, incoming: false });
+        v.push(Op::Remove { k: KSel { boff: b, idx: small(leaver as u16) } });
+        v.push(Op::ExpirePending { boff: b });
+        v.push(Op::Iter);
+        v
+    })
+    .boxed()
+}
+
 pub struct C16;
 
 pub fn run_case(case: &Case) -> CaseReport {
@@ -621,11 +651,11 @@ impl Property for C16 {
     }
     fn strategy(tier: Tier) -> BoxedStrategy<Case> {
         let n = tier.pick(150usize, 250usize);
-        let frag = prop_oneof![60 => op_strategy().prop_map(|o| vec![o]), 1 => pending_move_scenario(), 1 => pending_status_scenario()];
+        let frag = prop_oneof![60 => op_strategy().prop_map(|o| vec![o]), 1 => pending_move_scenario(), 1 => pending_status_scenario(), 1 => front_in_hot_subnet_scenario()];
         let mixed = (any::<bool>(), prop_oneof![4 => Just(16u8), 1 => 0u8..=16], proptest::collection::vec(frag, 1..n))
             .prop_map(|(pending_zero, max_incoming, frags)| Case { pending_zero, max_incoming, ops: frags.into_iter().flatten().collect(), svc: None });
         // the scenario on an empty table, followed by a short random tail
-        let focused = (any::<bool>(), prop_oneof![pending_move_scenario(), pending_status_scenario()], proptest::collection::vec(op_strategy(), 0..12)).prop_map(|(pending_zero, mut ops, tail)| {
+        let focused = (any::<bool>(), prop_oneof![pending_move_scenario(), pending_status_scenario(), front_in_hot_subnet_scenario()], proptest::collection::vec(op_strategy(), 0..12)).prop_map(|(pending_zero, mut ops, tail)| {
             ops.extend(tail);
             Case { pending_zero, max_incoming: 16, ops, svc: None }
         });
@@ -643,7 +673,7 @@ impl Property for C16 {
         run_case(case)
     }
     fn rule() -> String {
-        "histories (<=150 quick / <=250 thorough ops; bulk fills expanded) of the filter-respecting table API (insert_or_update, update_node, update_node_status, remove, iter, entry lookup, closest_keys, nodes_by_distances, forced pending expiry) on KBucketsTable<NodeId, Enr> built with the crate's own IpTableFilter/IpBucketFilter; keys are real key hashes from a deterministic pool of 2048 keys in buckets 250..255; records are signed and drawn from 3 hot /24 subnets, 8 filler subnets, IPv6-only (ordinary, IPv4-mapped into a hot subnet, ::1) and address-less shapes, with seq 1..3 so that updates move nodes between subnets. By-construction fragments: the record of a waiting (pending) node is updated into a subnet at the table limit; a waiting node of a subnet is reported disconnected, the subnet is then filled up in other buckets and the node's time-out elapses. After every elementary op: per /24 <=2 stored nodes per bucket and <=10 in the table; a record without IPv4 is never refused by a filter. One case in 24 goes through the public API: a real service (IPv4 / IPv6 / dual stack) configured with ip_limit behind a scripted handler gets session reports, disconnects, add_enr calls and NODES answers with records from the hot and filler subnets (plus a by-construction scenario: a /24 at the table limit, a full bucket with a waiting node, and a newer record of the waiting node moved into that /24 learnt from a NODES answer); after every step a clone of its table (Discv5::kbuckets) must respect the limits, also after every waiting node has been promoted in the clone. Non-trivial = some subnet reached 9 table entries or 2 entries in a full bucket and a later op carried a record with an IPv4 address.".into()
+        "histories (<=150 quick / <=250 thorough ops; bulk fills expanded) of the filter-respecting table API (insert_or_update, update_node, update_node_status, remove, iter, entry lookup, closest_keys, nodes_by_distances, forced pending expiry) on KBucketsTable<NodeId, Enr> built with the crate's own IpTableFilter/IpBucketFilter; keys are real key hashes from a deterministic pool of 2048 keys in buckets 250..255; records are signed and drawn from 3 hot /24 subnets, 8 filler subnets, IPv6-only (ordinary, IPv4-mapped into a hot subnet, ::1) and address-less shapes, with seq 1..3 so that updates move nodes between subnets. By-construction fragments: the record of a waiting (pending) node is updated into a subnet at the table limit; a waiting node of a subnet is reported disconnected, the subnet is then filled up in other buckets and the node's time-out elapses; a subnet at the table limit includes the disconnected front node of a full bucket, a newcomer of that subnet is offered to that bucket, another node leaves it and the time-out elapses. After every elementary op: per /24 <=2 stored nodes per bucket and <=10 in the table; a record without IPv4 is never refused by a filter. One case in 24 goes through the public API: a real service (IPv4 / IPv6 / dual stack) configured with ip_limit behind a scripted handler gets session reports, disconnects, add_enr calls and NODES answers with records from the hot and filler subnets (plus a by-construction scenario: a /24 at the table limit, a full bucket with a waiting node, and a newer record of the waiting node moved into that /24 learnt from a NODES answer); after every step a clone of its table (Discv5::kbuckets) must respect the limits, also after every waiting node has been promoted in the clone. Non-trivial = some subnet reached 9 table entries or 2 entries in a full bucket and a later op carried a record with an IPv4 address.".into()
     }
     fn assumptions() -> Vec<String> {
         vec![
